@@ -74,6 +74,75 @@ def _vec_root(fn, op):
     return None
 
 
+def composition_rules(ctx, rule, prog):
+    """how the loader composes the configuration (shared: C12.5, C19.7): directory listings (files only, sorted), path
+    lists in configured order, one merge per zone file, hosts combined and merged last, insert_merge merges per apex"""
+    gf = prog.body_of(FS + "get_files_from_dir")
+    gfr = A.Resolver(gf)
+    sorts = [b for b, t in gf.calls() if (t.get("callee") or "").endswith("::sort") or (t.get("callee") or "").endswith("::sort_unstable")]
+    oks = [b for b, e in A.return_exprs(gf, gfr) if A.peel(e)[0] == "agg" and A.peel(e)[2] == "Ok" and "Vec" in A.show(e) or
+           (A.peel(e)[0] == "agg" and A.peel(e)[2] == "Ok" and gf.local_ty(0).find("Vec") >= 0)]
+    ctx.check(bool(sorts) and bool(oks) and all(ob not in gf.reachable(0, removed_blocks=sorts) for ob in oks), rule, "get_files_from_dir:sorted",
+              "Ok(out) only after out.sort()", "directory listings are returned unsorted", gf.loc())
+    # ... and it lists the files of the directory: an entry is kept only if it is not itself a directory
+    gfc = A.Conds(gf, gfr)
+    kept = A.call_blocks(gf, A.name_endswith("Vec::<T, A>::push"))
+    okk = bool(kept) and all(gfc.guarded(b, lambda fc: fc[0] == "call" and fc[1].endswith("Path::is_dir") and fc[3] is False)[0] for b, t in kept)
+    ctx.check(okk, rule, "get_files_from_dir:files-only", "a directory entry is listed only if !path.is_dir()", "directory entries are listed without / against the is_dir test", gf.loc())
+    lz = prog.body_of(FS + "load_zone_configuration")
+    lzr = A.Resolver(lz)
+    im = A.call_blocks(lz, A.name_is(Z + "Zones::insert_merge"))
+    loops = lz.loops()
+    def in_plain_loop(b):
+        return any(b in body and any((lz.term(x).get("callee") or "").endswith("Iterator::next") for x in body if lz.term(x)["k"] == "call")
+                   and _smallest_loop_has(lz, loops, b) for _, body in loops)
+    zone_im = [(b, t) for b, t in im if A.calls_in(lzr.call_expr(t, b)[2][1], lambda n: n == FS + "zone_from_file")]
+    host_im = [(b, t) for b, t in im if A.calls_in(lzr.call_expr(t, b)[2][1], lambda n: n.endswith("Hosts as std::default::Default>::default") or "Into" in n or n.endswith("::into"))
+               and (b, t) not in zone_im]
+    ctx.check(len(zone_im) == 1 and len(host_im) == 1, rule, "loader:merge-sites", "one insert_merge per zone file, one for the combined hosts",
+              "insert_merge sites: %d zone, %d hosts" % (len(zone_im), len(host_im)), lz.loc())
+    if zone_im and host_im:
+        zb, hb = zone_im[0][0], host_im[0][0]
+        ctx.check(zb not in lz.reachable(hb) and hb in lz.reachable(zb), rule, "loader:hosts-last", "the hosts zone is merged after all zone files",
+                  "hosts are not merged last", lz.loc(hb))
+        hm_calls = A.call_blocks(lz, A.name_is(H + "Hosts::merge"))
+        ctx.check(len(hm_calls) == 1 and bool(A.calls_in(lzr.call_expr(hm_calls[0][1], hm_calls[0][0])[2][1], lambda n: n == FS + "hosts_from_file")), rule, "loader:hosts-combined",
+                  "hosts files are combined with Hosts::merge in list order", "hosts files are not combined through Hosts::merge", lz.loc())
+    # path lists: explicit files first, directories appended in argument order
+    froms = [lzr.call_expr(t, b) for b, t in lz.calls() if (t.get("callee") or "") == "std::convert::From::from" and "PathBuf" in (t.get("inst") or "")]
+    srcs = sorted(A.path_str(e[2][0]) or A.show(e[2][0]) for e in froms)
+    ctx.check(srcs == ["^hosts_files", "^zone_files"], rule, "loader:lists-start-with-explicit-files", "path lists start as the explicit file arguments",
+              "path lists initialised from %s" % srcs, lz.loc())
+    apps = [lzr.call_expr(t, b) for b, t in A.vec_tail_appends(lz)]
+    ok = len(apps) == 2 and all(A.calls_in(e[2][1], lambda n: n == FS + "get_files_from_dir") for e in apps)
+    ctx.check(ok, rule, "loader:dirs-appended", "each directory's sorted listing is appended", "directory listings are not appended to the path lists", lz.loc())
+    # ... and stay in that order: the path lists are only ever appended to (no sort / dedup / reverse / removal), so
+    # "later file" means later in the configured sequence
+    list_roots = {_vec_root(lz, t["args"][0]) for b, t in A.vec_tail_appends(lz)} - {None}
+    REORDER = ("sort", "sort_unstable", "sort_by", "sort_by_key", "sort_unstable_by", "sort_unstable_by_key", "sort_by_cached_key", "dedup", "dedup_by", "dedup_by_key",
+               "reverse", "swap", "swap_remove", "remove", "retain", "retain_mut", "truncate", "clear", "drain", "pop", "insert", "rotate_left", "rotate_right",
+               "split_off", "resize", "fill", "select_nth_unstable")
+    reorder = [(b, t) for b, t in lz.calls() if (t.get("callee") or "").rsplit("::", 1)[-1] in REORDER and t.get("args") and _vec_root(lz, t["args"][0]) in list_roots]
+    ctx.check(len(list_roots) == 2 and not reorder, rule, "loader:lists-only-appended", "the two path lists are only appended to",
+              "a path list is reordered / shortened by %s" % [(t.get("callee") or "").rsplit("::", 1)[-1] for b, t in reorder], lz.loc(reorder[0][0]) if reorder else lz.loc())
+    revs = [t for _, t in lz.calls() if (t.get("callee") or "").endswith("Iterator::rev")]
+    ctx.check(not revs, rule, "loader:forward-iteration", "all lists are consumed front to back", "a list is iterated in reverse", lz.loc())
+    zi = prog.fn(Z + "Zones::insert_merge")
+    zir = A.Resolver(zi)
+    zic = A.Conds(zi, zir)
+    mg = A.call_blocks(zi, A.name_is(Z + "Zone::merge"))
+    isr = A.call_blocks(zi, A.name_is(Z + "Zones::insert"))
+    ok = len(mg) == 1 and len(isr) == 1
+    if ok:
+        g1, _ = zic.guarded(mg[0][0], lambda fc: fc[0] == "is" and fc[1] == "Some" and A.peel(fc[2])[0] == "call" and A.peel(fc[2])[1].endswith("get_mut")
+                            and A.path_str(A.peel(fc[2])[2][1]) == "param2.apex")
+        g2, _ = zic.guarded(isr[0][0], lambda fc: fc[0] == "is" and fc[1] == "None")
+        e = zir.call_expr(mg[0][1], mg[0][0])
+        ok = g1 and g2 and A.path_str(e[2][1]) == "param2"
+    ctx.check(ok, rule, "Zones::insert_merge", "existing apex => merge(other), else insert(other)", "insert_merge does not merge into the zone of the same apex", zi.loc())
+
+
+
 def run(ctx):
     prog = ctx.prog
     ctx.rule("C12.1", "merge_zrs_helper: a record is pushed only if no equal record is present; a missing type takes the whole vector")
@@ -249,69 +318,7 @@ def run(ctx):
     ctx.check(len(lines) == 1 and not revs, "C12.4", "Hosts::deserialise:line-order", "data.lines() consumed front to back", "lines are not read in file order", hd.loc())
 
     # ---------------------------------------------------------------- C12.5
-    gf = prog.body_of(FS + "get_files_from_dir")
-    gfr = A.Resolver(gf)
-    sorts = [b for b, t in gf.calls() if (t.get("callee") or "").endswith("::sort") or (t.get("callee") or "").endswith("::sort_unstable")]
-    oks = [b for b, e in A.return_exprs(gf, gfr) if A.peel(e)[0] == "agg" and A.peel(e)[2] == "Ok" and "Vec" in A.show(e) or
-           (A.peel(e)[0] == "agg" and A.peel(e)[2] == "Ok" and gf.local_ty(0).find("Vec") >= 0)]
-    ctx.check(bool(sorts) and bool(oks) and all(ob not in gf.reachable(0, removed_blocks=sorts) for ob in oks), "C12.5", "get_files_from_dir:sorted",
-              "Ok(out) only after out.sort()", "directory listings are returned unsorted", gf.loc())
-    # ... and it lists the files of the directory: an entry is kept only if it is not itself a directory
-    gfc = A.Conds(gf, gfr)
-    kept = A.call_blocks(gf, A.name_endswith("Vec::<T, A>::push"))
-    okk = bool(kept) and all(gfc.guarded(b, lambda fc: fc[0] == "call" and fc[1].endswith("Path::is_dir") and fc[3] is False)[0] for b, t in kept)
-    ctx.check(okk, "C12.5", "get_files_from_dir:files-only", "a directory entry is listed only if !path.is_dir()", "directory entries are listed without / against the is_dir test", gf.loc())
-    lz = prog.body_of(FS + "load_zone_configuration")
-    lzr = A.Resolver(lz)
-    im = A.call_blocks(lz, A.name_is(Z + "Zones::insert_merge"))
-    loops = lz.loops()
-    def in_plain_loop(b):
-        return any(b in body and any((lz.term(x).get("callee") or "").endswith("Iterator::next") for x in body if lz.term(x)["k"] == "call")
-                   and _smallest_loop_has(lz, loops, b) for _, body in loops)
-    zone_im = [(b, t) for b, t in im if A.calls_in(lzr.call_expr(t, b)[2][1], lambda n: n == FS + "zone_from_file")]
-    host_im = [(b, t) for b, t in im if A.calls_in(lzr.call_expr(t, b)[2][1], lambda n: n.endswith("Hosts as std::default::Default>::default") or "Into" in n or n.endswith("::into"))
-               and (b, t) not in zone_im]
-    ctx.check(len(zone_im) == 1 and len(host_im) == 1, "C12.5", "loader:merge-sites", "one insert_merge per zone file, one for the combined hosts",
-              "insert_merge sites: %d zone, %d hosts" % (len(zone_im), len(host_im)), lz.loc())
-    if zone_im and host_im:
-        zb, hb = zone_im[0][0], host_im[0][0]
-        ctx.check(zb not in lz.reachable(hb) and hb in lz.reachable(zb), "C12.5", "loader:hosts-last", "the hosts zone is merged after all zone files",
-                  "hosts are not merged last", lz.loc(hb))
-        hm_calls = A.call_blocks(lz, A.name_is(H + "Hosts::merge"))
-        ctx.check(len(hm_calls) == 1 and bool(A.calls_in(lzr.call_expr(hm_calls[0][1], hm_calls[0][0])[2][1], lambda n: n == FS + "hosts_from_file")), "C12.5", "loader:hosts-combined",
-                  "hosts files are combined with Hosts::merge in list order", "hosts files are not combined through Hosts::merge", lz.loc())
-    # path lists: explicit files first, directories appended in argument order
-    froms = [lzr.call_expr(t, b) for b, t in lz.calls() if (t.get("callee") or "") == "std::convert::From::from" and "PathBuf" in (t.get("inst") or "")]
-    srcs = sorted(A.path_str(e[2][0]) or A.show(e[2][0]) for e in froms)
-    ctx.check(srcs == ["^hosts_files", "^zone_files"], "C12.5", "loader:lists-start-with-explicit-files", "path lists start as the explicit file arguments",
-              "path lists initialised from %s" % srcs, lz.loc())
-    apps = [lzr.call_expr(t, b) for b, t in A.vec_tail_appends(lz)]
-    ok = len(apps) == 2 and all(A.calls_in(e[2][1], lambda n: n == FS + "get_files_from_dir") for e in apps)
-    ctx.check(ok, "C12.5", "loader:dirs-appended", "each directory's sorted listing is appended", "directory listings are not appended to the path lists", lz.loc())
-    # ... and stay in that order: the path lists are only ever appended to (no sort / dedup / reverse / removal), so
-    # "later file" means later in the configured sequence
-    list_roots = {_vec_root(lz, t["args"][0]) for b, t in A.vec_tail_appends(lz)} - {None}
-    REORDER = ("sort", "sort_unstable", "sort_by", "sort_by_key", "sort_unstable_by", "sort_unstable_by_key", "sort_by_cached_key", "dedup", "dedup_by", "dedup_by_key",
-               "reverse", "swap", "swap_remove", "remove", "retain", "retain_mut", "truncate", "clear", "drain", "pop", "insert", "rotate_left", "rotate_right",
-               "split_off", "resize", "fill", "select_nth_unstable")
-    reorder = [(b, t) for b, t in lz.calls() if (t.get("callee") or "").rsplit("::", 1)[-1] in REORDER and t.get("args") and _vec_root(lz, t["args"][0]) in list_roots]
-    ctx.check(len(list_roots) == 2 and not reorder, "C12.5", "loader:lists-only-appended", "the two path lists are only appended to",
-              "a path list is reordered / shortened by %s" % [(t.get("callee") or "").rsplit("::", 1)[-1] for b, t in reorder], lz.loc(reorder[0][0]) if reorder else lz.loc())
-    revs = [t for _, t in lz.calls() if (t.get("callee") or "").endswith("Iterator::rev")]
-    ctx.check(not revs, "C12.5", "loader:forward-iteration", "all lists are consumed front to back", "a list is iterated in reverse", lz.loc())
-    zi = prog.fn(Z + "Zones::insert_merge")
-    zir = A.Resolver(zi)
-    zic = A.Conds(zi, zir)
-    mg = A.call_blocks(zi, A.name_is(Z + "Zone::merge"))
-    isr = A.call_blocks(zi, A.name_is(Z + "Zones::insert"))
-    ok = len(mg) == 1 and len(isr) == 1
-    if ok:
-        g1, _ = zic.guarded(mg[0][0], lambda fc: fc[0] == "is" and fc[1] == "Some" and A.peel(fc[2])[0] == "call" and A.peel(fc[2])[1].endswith("get_mut")
-                            and A.path_str(A.peel(fc[2])[2][1]) == "param2.apex")
-        g2, _ = zic.guarded(isr[0][0], lambda fc: fc[0] == "is" and fc[1] == "None")
-        e = zir.call_expr(mg[0][1], mg[0][0])
-        ok = g1 and g2 and A.path_str(e[2][1]) == "param2"
-    ctx.check(ok, "C12.5", "Zones::insert_merge", "existing apex => merge(other), else insert(other)", "insert_merge does not merge into the zone of the same apex", zi.loc())
+    composition_rules(ctx, "C12.5", prog)
 
     # ---------------------------------------------------------------- C12.6
     C19.loader_rules(ctx, "C12.6")
